@@ -86,5 +86,9 @@ class CobaMultiprocessor(Filter[Iterable[Any], Iterable[Any]]):
                     stdlog.close()
 
         except RuntimeError as e: #pragma: no cover
-            #This happens when importing main causes this code to run again
-            coba_exit(str(e))
+            #This happens when importing main causes this code to run again (the spawned child
+            #re-runs an unguarded main). Any other RuntimeError, e.g. one raised by the filter,
+            #is not ours to swallow and is raised to the caller unchanged.
+            if "bootstrapping phase" in str(e) or "freeze_support" in str(e):
+                coba_exit(str(e))
+            raise
